@@ -59,7 +59,7 @@ def record_stft(run, tier, rng):
         maxn = 2 * L + S + (2 if tier == "quick" else 4)
         for N in range(0, maxn + 1):
             c = stubs.make_stft(L, S, st)
-            x = T.signal(1, 0, N)
+            x = common.relayout(T.signal(1, 0, N), common.LAYOUTS[(N + L + len(st)) % len(common.LAYOUTS)])  # (compute_full sees any layout too)
             for comp in chunkings_for(N, L, S, rng, ncomp_max, nsamp):
                 empties = ()
                 if rng.random() < 0.3:
@@ -87,7 +87,7 @@ def record_stft(run, tier, rng):
             if N <= (8 if tier == "quick" else 14):
                 rec = T.Recorder(c)
                 for cs in range(1, N + 2):
-                    full = c.compute_full(T.signal(rec.utt + 1, 0, N))  # the signal the recorder is about to use
+                    full = c.compute_full(common.relayout(T.signal(rec.utt + 1, 0, N), common.LAYOUTS[cs % len(common.LAYOUTS)]))  # the signal the recorder is about to use
                     rec.tap.take()
                     ev, vals = rec.run(("fbf", N, cs))
                     run.evaluations += 1
@@ -118,7 +118,7 @@ def real_size_values(run, tier, rng):
         Ns = sorted(set([0, 1, S // 2, S // 2 + 1, L // 2, L // 2 + 1, L - 1, L, L + 1, L + S - 1, L + S, L + S + 1,
                          L + 2 * S + 3, 3 * L + 7, L + 3 * S + S // 4] + [nprng.randint(1, 4 * L) for _ in range(3 if tier == "quick" else 12)]))
         for N in Ns:
-            x = nprng.randn(N)
+            x = common.relayout(nprng.randn(N), common.LAYOUTS[N % len(common.LAYOUTS)])
             full = c.compute_full(x)
             for trial in range(2 if tier == "quick" else 5):
                 p, outs, chunks = 0, [], []
